@@ -1075,13 +1075,12 @@ def rule_attach_table(ctx):
     F = facts_of(ctx)
     asm = ctx.model.func("helpers", "attach_shared_memory")
     pm = ctx.model.func("helpers", "parallel_merging")
-    # tag -> factory
-    t2f = {}
-    for n in walk_no_nested(asm.node):
-        if isinstance(n, ast.If) and isinstance(n.test, ast.Compare) and isinstance(n.test.comparators[0], ast.Constant):
-            tag = n.test.comparators[0].value
-            made = [dotted(c.func) for s in n.body for c in calls_in(s)]
-            t2f[tag] = made[0] if made else None
+    # tag -> factory: what attach_shared_memory calls (with **args) on the paths that decided sketch_type == tag
+    wa = F.walk(asm)
+    tagp = asm.params[0] if asm.params else "sketch_type"
+    facs = {"CountMin", "HeavyHitters", "HyperLogLog"} | {c.name for c in F.classes(SKETCH_CLASSES)}
+    dt = dispatch_table(wa, is_param(tagp), facs)
+    t2f = {tag: (sorted(v)[0] if len(v) == 1 else None) for tag, v in dt.items()}
     # the tag / args variables of parallel_merging: first two elements of its descriptor triples
     tagvar = argvar = None
     for n in walk_no_nested(pm.node):
